@@ -129,26 +129,28 @@ PROPS = {
     },
     "C18": {
         "facts": facts.gen_pure_fns, "runs": notif_runs, "replay_runs": replay_runs, "monitor": mon_notif.C18, "stateful": True,
-        "diff_relevant": lambda d: d["mod"] == "notif",
+        "diff_relevant": lambda d: d["mod"] == "notif" or (d["mod"] == "query" and d["op"].startswith("notif.")),
         "trusted_base": BASE_TRUST + ["rns.Resolve and json.Valid are oracle inputs of the model (their results are recorded by the harness)",
                                       "raw store keys are split on '/' by the harness; addresses are bech32 and contain no '/'"],
         "assumptions": ["recipient addresses are '/'-free (bech32)", "block time is strictly increasing between blocks"],
     },
     "C08": {
         "runs": rns_runs, "replay_runs": replay_runs, "monitor": mon_rns.c08,
-        "diff_relevant": lambda d: d["mod"] == "rns" and d["op"] not in ("bid", "cancelBid", "makePrimary") and
+        "diff_relevant": lambda d: (d["mod"] == "query" and d["op"] in ("rns.name", "rns.forSale", "rns.allForSale", "rns.listOwnedNames", "rns.allNames")) or
+            d["mod"] == "rns" and d["op"] not in ("bid", "cancelBid", "makePrimary") and
             (bool(set(d["fields"]) & {"names", "forsale", "outcome"}) or (d["op"] in ("buy", "acceptBid") and "bank" in d["fields"])),
         "trusted_base": BASE_TRUST, "assumptions": RNS_ASSUME,
     },
     "C09": {
         "facts": facts.gen_pure_fns, "runs": rns_runs, "replay_runs": replay_runs, "monitor": mon_rns.c09,
-        "diff_relevant": lambda d: d["mod"] == "rns" and
+        "diff_relevant": lambda d: (d["mod"] == "query" and d["op"] in ("rns.bid", "rns.allBids")) or d["mod"] == "rns" and
             (bool(set(d["fields"]) & {"bids", "bank"}) or ("outcome" in d["fields"] and d["op"] in ("bid", "cancelBid", "acceptBid", "buy", "register"))),
         "trusted_base": BASE_TRUST, "assumptions": RNS_ASSUME,
     },
     "C16": {
         "runs": rns_runs, "replay_runs": replay_runs, "monitor": mon_rns.c16, "facts": facts.gen_pure_fns,
-        "diff_relevant": lambda d: d["mod"] == "rns" and d["op"] in ("register", "init"),
+        "diff_relevant": lambda d: (d["mod"] == "query" and d["op"] in ("rns.name", "rns.listOwnedNames", "rns.primaryName")) or
+            (d["mod"] == "rns" and d["op"] in ("register", "init")),
         "trusted_base": BASE_TRUST, "assumptions": RNS_ASSUME,
     },
 }
